@@ -821,7 +821,12 @@ func (db *DB) Open() (err error) {
 // sync retry loop and cancels any in-flight sync attempt.
 func (db *DB) Close(ctx context.Context) (err error) {
 	verifhook.Yield("db:close_begin")
-	db.cancel()
+	// Open() replaces ctx/cancel under db.mu (reopen after close); read the
+	// cancel function under the same lock so a concurrent Open() cannot race.
+	db.mu.RLock()
+	cancel := db.cancel
+	db.mu.RUnlock()
+	cancel()
 	db.wg.Wait()
 	verifhook.Yield("db:close_monitor_stopped")
 
